@@ -59,15 +59,18 @@ func DateFromProto(proto *dtpb.Date) (Date, error) {
 	// A date is a calendar day: keep the day the element shows in its own time
 	// zone, on the UTC midnight that ParseDate uses, so that a date element and
 	// a Date literal of the same day are equal whatever zone the element carries.
-	t = time.Date(t.Year(), t.Month(), t.Day(), 0, 0, 0, 0, time.UTC)
+	// Components below the element's precision are not part of the value.
 	var l layout
 	switch proto.Precision {
 	case dtpb.Date_DAY:
 		l = dayLayout
+		t = time.Date(t.Year(), t.Month(), t.Day(), 0, 0, 0, 0, time.UTC)
 	case dtpb.Date_MONTH:
 		l = monthLayout
+		t = time.Date(t.Year(), t.Month(), 1, 0, 0, 0, 0, time.UTC)
 	case dtpb.Date_YEAR:
 		l = yearLayout
+		t = time.Date(t.Year(), time.January, 1, 0, 0, 0, 0, time.UTC)
 	}
 	return Date{t, l}, nil
 }
